@@ -83,6 +83,9 @@ def case_strategy(draw: Any, carrier: str) -> Dict[str, Any]:
                       st.sampled_from([0, 1, 10, 300, 70000]), st.integers(0, 255))),
             max_size=3)),
         "client_close": draw(st.sampled_from([1000, 1000, 3001, None])),
+        # another WebSocket connection of the same worker, opened first and still open: what it
+        # negotiated (compression) and exchanged must not leak into this one
+        "prelude": draw(st.sampled_from([None, None, {"deflate": True}, {"deflate": False}])),
     }
 
 
@@ -107,10 +110,25 @@ def app_program(case: Dict[str, Any]) -> list:
     return prog
 
 
+PRELUDE_TEXT = "prelude prelude prelude prelude"
+
+
 async def scenario(env: Any, case: Dict[str, Any]) -> Any:
+    pre = None
+    if case.get("prelude"):
+        pre = WSSession(env, "h1")
+        st_pre = await pre.open(path="/pre", key_seed=9, extensions="permessage-deflate"
+                                if case["prelude"]["deflate"] else None)
+        if st_pre != 101:
+            raise Violation("harness", f"prelude handshake answered {st_pre}")
+        neg = any(n == b"sec-websocket-extensions" and b"permessage-deflate" in v
+                  for n, v in pre.headers)
+        await pre.send(b"".join(message_frames("text", PRELUDE_TEXT.encode(), [],
+                                               compress=neg, mask_seed=77)))
+        await env.settle(5.0)
     ws = WSSession(env, case["carrier"])
     status = await ws.open(extensions="permessage-deflate" if case["deflate"] else None)
-    out = {"ws": ws, "status": status, "negotiated": False}
+    out = {"ws": ws, "status": status, "negotiated": False, "pre": pre}
     if status not in (101, 200):
         return out
     negotiated = any(n == b"sec-websocket-extensions" and b"permessage-deflate" in v
@@ -141,6 +159,11 @@ async def scenario(env: Any, case: Dict[str, Any]) -> Any:
     await env.settle(50.0)
     await ws.pump()
     await ws.end()
+    if pre is not None:
+        await pre.send(b"".join(message_frames("text", PRELUDE_TEXT.encode(), [], mask_seed=78)))
+        await env.settle(5.0)
+        await pre.pump()
+        await pre.end()
     return out
 
 
@@ -168,9 +191,16 @@ def _judge(case: Dict[str, Any], obs: Any) -> Dict[str, Any]:
         raise Violation("handshake_failed", f"status {val['status']}", backend=be)
     if case["deflate"] and not val["negotiated"]:
         raise Violation("deflate_not_negotiated", f"{ws.headers}", backend=be)
-    insts = obs.instances
+    insts = [i for i in obs.instances if i.scope.get("path") != "/pre"]
     if len(insts) != 1:
         raise Violation("instance_count", f"{len(insts)}", backend=be)
+    if val.get("pre") is not None and case["limit"] >= len(PRELUDE_TEXT):
+        pframes, _, perr = parse_server_frames(val["pre"].server_bytes())
+        pevents, perr2 = assemble_messages(pframes) if not perr else ([], perr)
+        echoed = [e["data"] for e in pevents if e["kind"] == "text"]
+        if perr or perr2 or echoed != [PRELUDE_TEXT, PRELUDE_TEXT]:
+            raise Violation("other_connection_disturbed", f"the connection opened first got "
+                            f"{_short(echoed)} {perr or perr2}", backend=be)
     inst = insts[0]
     if inst.exit and inst.exit.startswith("raise"):
         bad = [s_ for s_ in inst.sends if s_.get("outcome", "").startswith("raise")]
@@ -267,7 +297,9 @@ def _short(x: Any) -> str:
 
 def run_case(case: Dict[str, Any]) -> CaseInfo:
     cfg = {"keep_alive_timeout": T_BIG, "websocket_max_message_size": case["limit"]}
-    programs = {"/ws": app_program(case)}
+    programs = {"/ws": app_program(case),
+                "/pre": [["recv"], ["send", {"type": "websocket.accept"}],
+                         ["ws_loop", {"echo": True, "tolerate": True}]]}
 
     async def sc(env: Any) -> Any:
         return await scenario(env, case)
@@ -291,6 +323,8 @@ def run_case(case: Dict[str, Any]) -> CaseInfo:
         classes.append("pings")
     if info.get("adjusted"):
         classes.append("adjusted:ping_in_compressed_fragments")
+    if case.get("prelude"):
+        classes.append("other_connection_deflate=%s" % case["prelude"]["deflate"])
     return CaseInfo(fragmented or near or case["seg"]["mode"] != "one", classes, evals=2)
 
 
